@@ -11,6 +11,7 @@ import (
 	"github.com/scrapli/scrapligo/logging"
 	"github.com/scrapli/scrapligo/transport"
 	"github.com/scrapli/scrapligo/util"
+	"github.com/scrapli/scrapligo/util/simhook"
 )
 
 const (
@@ -136,6 +137,8 @@ func (c *Channel) Open() (reterr error) {
 
 	c.l.Debug("starting channel read loop")
 
+	simhook.Yield("chan.open.spawn")
+
 	go c.read()
 
 	if c.AuthBypass {
@@ -183,19 +186,28 @@ func (c *Channel) Open() (reterr error) {
 func (c *Channel) Close() error {
 	c.l.Info("channel closing...")
 
+	simhook.Yield("chan.close.begin")
+
 	close(c.Errs)
 
 	ch := make(chan struct{})
 
+	simhook.Yield("chan.close.flag")
+
 	if !c.readLoopExited {
 		go func() {
 			defer close(ch)
+
+			simhook.Enter("chan.close.helper")
+			simhook.Yield("chan.close.helper")
 
 			c.done <- struct{}{}
 		}()
 	} else {
 		close(ch)
 	}
+
+	simhook.Yield("chan.close.wait")
 
 	select {
 	case <-ch:
